@@ -690,7 +690,7 @@ fn main() {
         run.sample(s);
     }
     run.rule(&format!(
-        "every sequence of <= {full_depth} control-plane actions over the alphabet, plus for depth <= {max_depth} the first sequence reaching each further canonical AuthModel state (no-op actions pruned); per configuration: p1 (standard), p2 (strong authentication) and the co-owner (matrix only) x decision matrix ({} permissions x {} resources) x {} battery commands (quick tier: the battery without its 24 family-repeating items; a Principal no record was ever about answers 7 commands of different families); distinct non-trivial = (canonical state, Principal) whose readable set is a proper non-empty subset of the population or carries a field mask",
+        "every sequence of <= {full_depth} control-plane actions over the alphabet, plus for depth <= {max_depth} the first sequence reaching each further canonical AuthModel state (no-op actions pruned); per configuration: p1 (standard), p2 (strong authentication) and the co-owner (matrix only) x decision matrix ({} permissions x {} resources) x {} battery commands (answered once per distinct resolved authority; a Principal no record was ever about answers 7 commands of different families); distinct non-trivial = (canonical state, Principal) whose readable set is a proper non-empty subset of the population or carries a field mask",
         MATRIX_PERMS.len(), N + 6, items.len()
     ));
     run.assume("AuthModel (vgov/src/model.rs) restates docs/anda_cognitive_nexus.md §10 and the rows.rs/decision.rs doc comments for the bounded alphabet; answers are compared after the canonicalisation documented in vgov/src/battery.rs (ids -> logical keys; clocks, tx ids and Space sequence numbers dropped)");
